@@ -50,6 +50,10 @@ def f12Repaired : Str :=
 def f12bText : Str :=
   cs!"query Home($uid: ID) {  me {    id,    friend____filter___v_uid: friend(filter: $uid) {      id,      name,    },  },}"
 
+/-- what the compiler prints for the same program since the repair of F12b -/
+def f12bRepaired : Str :=
+  cs!"query Home($uid: ID) {  me {    id,    friend____filter___o_id__v_uid_c: friend(filter: { id: $uid }) {      id,      name,    },  },}"
+
 /-- F11 (`user(n: -5)`): the alias is not a Name -/
 def f11NegText : Str :=
   cs!"query Home {  user____n___l_-5: user(n: -5) {    id,    name,  },}"
@@ -81,6 +85,7 @@ theorem plain_valid : check plainText = some true := by decide +kernel
 theorem f12_invalid : check f12Text = some false := by decide +kernel
 theorem f12_repaired_valid : check f12Repaired = some true := by decide +kernel
 theorem f12b_invalid : check f12bText = some false := by decide +kernel
+theorem f12b_repaired_valid : check f12bRepaired = some true := by decide +kernel
 theorem f11neg_unparsed : check f11NegText = none := by decide +kernel
 theorem f11collide_invalid : check f11CollideText = some false := by decide +kernel
 theorem listVar_before_invalid : check listVarBefore = some false := by decide +kernel
